@@ -23,7 +23,7 @@ fn boundary_script(which: u64) -> Vec<Op> {
             v4: v4.into(), v6: v6.into(),
         }
     };
-    match which % 6 {
+    match which % 7 {
         // aggregation threshold crossing up and down, same ASN
         0 => vec![
             roa("c1", &["10.0.0.0/24 => 65000"], &[]), Op::Quiesce,
@@ -72,6 +72,41 @@ fn boundary_script(which: u64) -> Vec<Op> {
             Op::AddParent { ca: "c3".into(), parent: "p2".into(),
                 asn: "AS65007".into(), v4: "10.0.5.0/24".into(), v6: "".into() },
             Op::Quiesce, Op::SyncAll, Op::Quiesce,
+        ],
+        // a CA with a REMOTE parent (a CA of a second krill instance, itself
+        // a remote child of p1) that later also publishes at that instance's
+        // server: configuration changes, entitlement changes made by the
+        // remote parent and by the remote parent's own parent, a move to the
+        // other publication server with content changes on the way
+        6 => vec![
+            Op::RemoteChain { via: "p1".into(), remote: "rp".into(),
+                ca: "x".into(), asn: "AS65009-AS65010".into(),
+                v4: "10.200.0.0/16, 10.201.0.0/16".into(), v6: "".into() },
+            Op::Quiesce, Op::SyncAll, Op::Quiesce,
+            roa("x", &["10.200.0.0/24 => 65009", "10.201.0.0/16-20 => 65010",
+                       "10.200.1.0/24 => 65009"], &[]),
+            Op::AspaUpdate { ca: "x".into(),
+                add: vec!["65009 => 65010".into()], remove: vec![] },
+            Op::BgpsecAdd { ca: "x".into(), asn: 65010, key: 0 },
+            Op::Quiesce,
+            Op::RemoteChildUpdate { parent: "rp".into(), child: "x".into(),
+                asn: "AS65009".into(), v4: "10.200.0.0/16".into(),
+                v6: "".into() },
+            Op::SyncAll, Op::Quiesce,
+            Op::RemoteChildUpdate { parent: "rp".into(), child: "x".into(),
+                asn: "AS65009-AS65010".into(),
+                v4: "10.200.0.0/16, 10.201.0.0/16".into(), v6: "".into() },
+            Op::SyncAll, Op::Quiesce,
+            Op::RepoMigrate { ca: "x".into() }, Op::Quiesce,
+            roa("x", &["10.200.2.0/24 => 65009"], &["10.200.1.0/24-24 => 65009"]),
+            Op::SyncAll, Op::Quiesce,
+            Op::RollActivate { ca: "x".into() }, Op::Quiesce,
+            Op::SyncAll, Op::Quiesce,
+            // the remote parent itself is cut down by its parent
+            upd("p1", "rp", "AS65009", "10.200.0.0/16", ""),
+            Op::SyncAll, Op::Quiesce, Op::SyncAll, Op::Quiesce,
+            upd("p1", "rp", "AS65009-AS65010", "10.200.0.0/16, 10.201.0.0/16", ""),
+            Op::SyncAll, Op::Quiesce, Op::SyncAll, Op::Quiesce,
         ],
         // key roll interleaved with content changes (script 5: the same
         // with ROAs in aggregated mode, pinned by run_history)
@@ -169,14 +204,14 @@ fn run_history(
     let rrdp_interval = rng.below(2) as u32;
     let memory = rng.chance(1, 4);
     let depth4 = rng.chance(1, 2);
-    let boundary = if idx < 6 { Some(idx) }
-        else if rng.chance(1, 3) { Some(rng.below(6)) } else { None };
+    let boundary = if idx < 7 { Some(idx) }
+        else if rng.chance(1, 3) { Some(rng.below(7)) } else { None };
     // the scripts about aggregated ROAs (threshold crossing, partial removal
     // and partial loss of an aggregated ASN's prefixes) are about the
     // aggregating configurations: the pinned runs use (3,2), later ones any
     // configuration that aggregates at these sizes
     let agg = match boundary {
-        Some(0) | Some(1) if idx < 6 => (3, 2),
+        Some(0) | Some(1) if idx < 7 => (3, 2),
         Some(5) => (1, 1),
         Some(0) | Some(1) if agg.0 > 10 => CONFIGS[(seed % 3) as usize],
         _ => agg,
@@ -188,12 +223,14 @@ fn run_history(
     cfg.aggregate = agg;
     cfg.rrdp_interval = rrdp_interval;
     if memory { cfg.memory = Some(seed) }
+    // the random part may move CAs to the second publication server
+    cfg.allow_remote = true;
     r.distinct("configs", format!("{agg:?}/{rrdp_interval}/{memory}/{depth4}"));
     let mut script: Vec<Op> = hist::standard_forest(depth4);
     let n_setup = script.len();
     if let Some(b) = boundary { script.extend(boundary_script(b)) }
     let mut m = C01Monitor {
-        observe_every: if idx < 6 { 1 } else { 3 },
+        observe_every: if idx < 7 { 1 } else { 3 },
         last_hash: 0, prev_mode: None,
     };
     let res = runner::run(r, args, RunCfg {
@@ -220,8 +257,8 @@ fn main() {
     let mut idx = 0u64;
     loop {
         // boundary scripts 0..3 are spread over the first shards
-        let hist_idx = if idx == 0 && args.shard < 6 { args.shard }
-            else { 6 + idx };
+        let hist_idx = if idx == 0 && args.shard < 7 { args.shard }
+            else { 7 + idx };
         let seed = args.shard_seed().wrapping_mul(7919).wrapping_add(hist_idx);
         run_history(&mut r, &args, hist_idx, seed, None, None);
         idx += 1;
